@@ -99,10 +99,17 @@ pub fn run(tier: Tier, seed: u64) -> i32 {
     for c in cases.iter() {
         *per_type.entry(c.type_name()).or_insert(0) += 1;
     }
-    let mut l = cases
-        .par_iter()
-        .fold(Local::default, |mut l, c| {
-            judge(c.as_ref(), &mut l);
+    // library values need not be Send/Sync: every shard regenerates the (deterministic) case list and judges its own slice
+    const SHARDS: usize = 16;
+    let mut l = (0..SHARDS)
+        .into_par_iter()
+        .map(|shard| {
+            let mut l = Local::default();
+            for (i, c) in all_cases(tier).iter().enumerate() {
+                if i % SHARDS == shard {
+                    judge(c.as_ref(), &mut l);
+                }
+            }
             l
         })
         .reduce(Local::default, |mut a, b| {
